@@ -468,10 +468,39 @@ def p4(ctx, fx, I):
         if any(ad for (_, ad) in lp.sources()):
             why = "the loop over paths uses adaptors (some paths unchecked)"
             continue
+        # the prefix may be stripped in one step or in several (`strip_prefix('$').and_then(|r| r.strip_prefix('.'))`): chains of
+        # strip_prefix calls, each on the remainder the previous one handed back, whose constants concatenate to `$.`
+        sp_calls = {}
         for b, t in F.calls():
             n = fv.call_node(b)
-            if t.get("name") == "strip_prefix" and len(n.kids) == 2 and const_value(n.kids[1]) == "$." and item_path(n.kids[0], lp.node) == []:
-                g, bad = success_edges(F, n)
+            if t.get("name") == "strip_prefix" and len(n.kids) == 2 and isinstance(const_value(n.kids[1]), str):
+                sp_calls[b] = n
+
+        def chain_of(n, depth=0):
+            base = peel(n.kids[0])
+            g_ = 0
+            while base.kind in ("variant", "field") and base.kids and g_ < 4:
+                base = peel(base.kids[0])
+                g_ += 1
+            base = common._outcome_root(base)
+            if item_path(n.kids[0], lp.node) == []:
+                return [n]
+            if depth < 3 and any(base is m for m in sp_calls.values()):
+                prev = chain_of(base, depth + 1)
+                return (prev + [n]) if prev else None
+            return None
+        chains = []
+        for b, n in sp_calls.items():
+            ch = chain_of(n)
+            if ch and "".join(const_value(x.kids[1]) for x in ch) == "$.":
+                chains.append(ch)
+        for ch in chains:
+            n = ch[0]
+            b = n.d["bb"]
+            if True:
+                bad = []
+                for x in ch:
+                    bad.extend(success_edges(F, x)[1])
                 starts = [x for (_, x) in bad if F.term(x)["k"] != "unreachable"]
                 r = cfg.reachable(F, starts)
                 oks = [e["bb"] for e in cfg.exit_sites(F) if e["kind"] == "Ok"]
